@@ -33,6 +33,19 @@ def _offset_fetch_values(H):
     return out
 
 
+def _stored_offset_at(H, tpk, t):
+    """The offset the coordinator had stored for tpk at time t (initial offsets, then every accepted OffsetCommit)."""
+    cur = (H.get("initial_committed") or {}).get(tpk, -1)
+    for e in H["group"]:
+        if e["t"] > t + 1e-9:
+            break
+        if e["op"] == "OffsetCommit" and e.get("error") == 0:
+            v = (e.get("offsets") or {}).get(tpk)
+            if v is not None and v[1] == 0:
+                cur = v[0]
+    return cur
+
+
 # ==================================================================================================
 # C05
 # ==================================================================================================
@@ -118,6 +131,19 @@ def judge_c05(H):
                     for (ft, offs) in fetches.get(inc, []):
                         if rec["t_start"] - 1e-9 <= ft <= t and tpk in offs:
                             cands.add(offs[tpk])
+                    if not cands:
+                        # the member never asked (no OffsetFetch reply covering the partition reached it in this
+                        # period): whatever it starts from, it is not what the group committed
+                        stored = _stored_offset_at(H, tpk, t)
+                        want = _next_visible(voff, stored if stored >= 0 else 0)
+                        st["period_starts_without_lookup"] = st.get("period_starts_without_lookup", 0) + 1
+                        if o != want:
+                            V.append(("period_starts_elsewhere_without_committed_offset_lookup",
+                                      f"{inc} took over {tpk} and returned offset {o} first although no OffsetFetch reply for "
+                                      f"that partition had reached it in this ownership period; the group's committed offset "
+                                      f"was {stored} (first visible record from there: {want})",
+                                      {"period": {k: v for k, v in rec.items() if k != 'deliveries'}, "first": o,
+                                       "stored_committed": stored}))
                     if cands:
                         st["period_starts_checked"] += 1
                         starts = {(_next_visible(voff, c if c >= 0 else 0)) for c in cands}
@@ -294,6 +320,14 @@ def judge_c04(H):
                 if rec["t_start"] - 1e-9 <= ft <= first_t and tpk in offs:
                     cands.add(offs[tpk])
             if not cands:
+                stored = _stored_offset_at(H, tpk, first_t)
+                below = [o for (_t, o, _n2) in rec["deliveries"] if stored >= 0 and o < stored]
+                if below:
+                    V.append(("record_below_groups_committed_offset_delivered_again_without_lookup",
+                              f"{inc} took over {tpk} without any OffsetFetch reply for it reaching the member, and returned "
+                              f"offsets {below[:5]} although the group's committed offset was {stored}",
+                              {"period": {k: v for k, v in rec.items() if k != 'deliveries'}, "below": below[:10],
+                               "stored_committed": stored}))
                 continue
             st["periods_started_from_committed"] += 1
             given = [c if c >= 0 else 0 for c in cands]
